@@ -13,8 +13,13 @@ holds, `WFB` the state invariant between two pushes (Build/Inv.lean).
   R2  push_interp       the appended row is the documented one: `Spec.interpDT` of the value at the builder's field
       newDT_shape / newRoot_shape   `build_builder` establishes the `Shape` relation R2 is indexed by
   R3  runRows_interp    after all rows: the root's rows are `interpRow` of the records, all columns at `rows.length`
-      (coverage of R2/R3: every builder family — view builders included, dictionaries with integer keys
-      and Utf8/LargeUtf8 values; values without raw key/value call streams — notes/C01.md)
+      (coverage of R2: every builder family `Shape` admits — view builders included; of the dictionaries those whose
+      value builder is a Utf8 / LargeUtf8 builder or refuses strings — and every value whose raw key/value call streams
+      alternate, `structStreamsAlternate`, with the sentinel bound `narrowDT` when a raw stream occurs.  R3 asks
+      `coveredF` of the schema: dictionaries with integer keys have Utf8 / LargeUtf8 values; its `Safe`-free form
+      `runRows_interp'` of Props/C01Obs.lean asks only `coveredWF` — notes/C01.md)
+All theorems of this file carry `WFB` / `Safe`; their `Safe`-free forms on the weak invariant `WFH` / `NoDictKey` are the
+primed theorems of Props/C01Obs.lean.
 The end-to-end composition with the physical layer (`finish_decode`) is `C01_build_decode` in Props/C01.lean.
 
 Proofs live in SaModel/Lemmas/C01*.lean (list lemmas, per-family step lemmas, the mutual recursion over the
@@ -29,8 +34,8 @@ open SaModel SaModel.Build SaModel.Spec
 well formed and appends exactly one logical row.  `Safe b` is a property of the schema (no dictionary with
 non-nullable keys below a nullable struct / fixed-size list — see `dict_placeholder_unstable` for why it is
 needed).  No hypothesis on the value: raw key/value call streams (`SVal.mapRaw`) that do not alternate are REFUSED
-by a Map builder since repo fix eafdf15 (`map_refuses_non_alternating` below; the former hypothesis `rawOK x` is
-gone), a struct builder accepts them and stays well formed. -/
+by a Map builder (repo fix eafdf15; `map_refuses_non_alternating` below), a struct builder accepts them and stays well
+formed. -/
 theorem push_appends (ext : Ext) (x : SVal) (b b' : B) (hwf : WFB b) (hsafe : Safe b)
     (h : push ext b x = .ok b') : WFB b' ∧ Safe b' ∧ ∃ lv, dec b' = dec b ++ [lv] := by
   obtain ⟨a, d⟩ := Build.push_appends ext x b b' hwf hsafe h
@@ -112,8 +117,8 @@ theorem pushMapOps_ok_alternating (ext : Ext) (ops : SMapOps) (pd : Bool) (offs 
 
 /-- **A Map builder refuses every raw key/value call stream that does not alternate** (two keys in a row, a value
 without a key, a trailing key — exactly the streams `Spec.interpDT` calls `malformed`), whatever the keys and values
-are and whatever state the builder is in.  Before repo fix eafdf15 such a stream was accepted and left keys and
-values of the Map array at different lengths (finding C16-map-key-value-alternation). -/
+are and whatever state the builder is in.  (Repo fix eafdf15 of finding C16-map-key-value-alternation: the code it
+replaced accepted such a stream and left keys and values of the Map array at different lengths.) -/
 theorem map_refuses_non_alternating (ext : Ext) (p : String) (mm : MapMeta) (v : Validity) (offs : List Int)
     (ks vs : B) (ops : SMapOps) (hmal : isAlternating ops = false) (b' : B) :
     push ext (.map p mm v offs ks vs) (.mapRaw ops) ≠ .ok b' := by
@@ -203,7 +208,8 @@ where
 
 /-- **R2.** The row a successful push appends is the documented one: `Spec.interpDT` at the field the builder was
 built for (records matched by name, numbers by value, variants by index) — for every builder family `Shape`
-covers (all but dictionaries with a non-integer key builder or a value builder other than Utf8/LargeUtf8) and every
+covers (all; a dictionary builder when its key builder is an integer leaf and its value builder is a Utf8 / LargeUtf8
+builder or a builder that refuses strings — Lemmas/C01Shape.lean) and every
 value whose raw key/value call streams (`SVal.mapRaw`) alternate (`hraw`; decidable, `= !Spec.containsMalformed x`).
 At a Map position that excludes nothing that could succeed (`map_refuses_non_alternating`); at a struct position it is
 needed (`struct_stream_needed` below: the struct builder accepts every stream, `Spec.interpDT` calls the others
@@ -290,8 +296,8 @@ theorem newDT_shape (dt : DataType) (path : String) (n : Bool) (md : Metadata) (
     (h : newDT path dt n md = .ok b) : Shape b dt n md :=
   Build.newDT_shape dt path n md b hc h
 
-/-- view buffers only grow: `ViewSmall` of the final state holds of every intermediate state (not needed by the
-theorems below any more — `WFB` implies `ViewSmall`, `WFB_small` — kept as a fact about the model) -/
+/-- view buffers only grow: `ViewSmall` of the final state holds of every intermediate state (a fact about the model;
+the theorems below do not use it: `WFB` implies `ViewSmall`, `WFB_small`) -/
 theorem foldl_push_small (ext : Ext) : ∀ (rows : List SVal) (b b' : B), rows.foldlM (push ext) b = .ok b' →
     Lemmas.C03.ViewSmall b' → Lemmas.C03.ViewSmall b
   | [], b, b', h, hs => by
@@ -400,7 +406,7 @@ example : ∃ b', push {} exList (.seq (.cons (.int .i8 5) (.cons (.int .i64 6) 
 def exMapFields : List Field :=
   [.mk "m" (.map (.mk "entries" (.struct (.cons (.mk "key" .utf8 false []) (.cons (.mk "value" .int32 true []) .nil))) false []) false) false []]
 
-/-- `map_refuses_non_alternating` / R1 without `rawOK`: two keys in a row, a value without a key and a trailing key
+/-- `map_refuses_non_alternating` / R1 has no hypothesis on the value: two keys in a row, a value without a key and a trailing key
 are refused with the Map builder's annotated error; the alternating stream is accepted and is ONE row with two entries -/
 example : runRows {} exMapFields [.record "R" (.cons "m" 0 (.mapRaw (.key (.str "x") (.key (.str "") .nil))) .nil)] =
     .error (.errCtx "Invalid map: a key was serialized before the value of the previous key"
@@ -482,7 +488,7 @@ example : (do let root ← runRows {} exRawFields [exRawRow]; pure (dec root) : 
 
 /-- a dictionary whose value builder refuses strings (behaviour confirmed on the crate, notes/C01.md): `build_builder`
 ACCEPTS `Dictionary(Int8, Int32)`, every scalar is forwarded to the value builder as a string and an `Int32` builder refuses
-strings — and `Spec.interpScalar` (the string at the VALUE type, `interpDictStr`) gives the scalar no meaning either: the
+strings — and `Spec.interpScalar` (the string at the VALUE type, `Spec.dictValue`) gives the scalar no meaning either: the
 type is inside `coveredW` (R2), and outside `covered` (`into_array` cannot append its placeholder string) -/
 example : (newDT "$.d" (.dictionary .int8 .int32) false []).isOk = true ∧
     (do let b ← newDT "$.d" (.dictionary .int8 .int32) false []; push {} b (.int .i32 1) : R B).isErr = true ∧
@@ -490,7 +496,7 @@ example : (newDT "$.d" (.dictionary .int8 .int32) false []).isOk = true ∧
     coveredW (.dictionary .int8 .int32) = true ∧ covered (.dictionary .int8 .int32) = false := by decide +kernel
 
 /-- a dictionary whose value type parses strings stores the PARSED value, and the specification says so; R2 does not
-cover it yet (`dictValOpen`) -/
+cover it (`dictValOpen`: outside `coveredW`) -/
 example : interpDT { parseDate := fun _ _ => .ok 18262 } (.dictionary .int8 .date32) false [] (.str "2020-01-01") = .ok (.int 18262) ∧
     coveredW (.dictionary .int8 .date32) = false ∧ coveredW (.dictionary .int8 .utf8View) = false ∧
     coveredW (.dictionary .int8 (.dictionary .int8 .utf8)) = false := by decide +kernel
